@@ -423,7 +423,7 @@ func WrapURI2(str string) *UriValue {
 
 func (u *UriValue) Equals(other interface{}, guard px.Guard) bool {
 	if ou, ok := other.(*UriValue); ok {
-		return *u.URL() == *ou.URL()
+		return u.URL().String() == ou.URL().String()
 	}
 	return false
 }
